@@ -6,11 +6,19 @@
   (`handle_response` merging the nodes of every response) and `Actor.closestOfDone`.
   The candidate order (BEP42-secure first, then XOR distance, one insecure or eight secure nodes
   per IP) is the `ClosestNodes` accumulator of C11.
+
+  Three layers: (a) single operations (`visit_closest_closes`, …); (b) the whole lookup as a history
+  of operations `lrun` — `lrun_merged`, `lookup_closure`, networks of at most 20 nodes
+  (`small_population_all_queried`, `small_network_reachable_queried`, `small_network_value_found`);
+  (c) refinement — every iteration of the actor loop acts on its registered lookups only through
+  those operations (`step_iter`) and leaves them closed (`step_closed`), hence
+  `node_lookup_closure` for every run of a node from its creation.
 -/
 import MainlineModel.Lemmas.ActorLemmas
 import MainlineModel.Props.C11
 import MainlineModel.Lemmas.SocketLemmas
 import MainlineModel.Props.C02
+import MainlineModel.Props.C06
 namespace Mainline.Props.C07
 open Mainline Mainline.Actor Mainline.ClosestNodes
 
@@ -650,5 +658,705 @@ example :
       simp [listed, listedIn, Response.closerNodes] at he; exact he
     subst this
     exact Or.inr ⟨rfl, rfl⟩
+
+
+/-! ## The actor applies exactly these operations to its lookups (refinement) -/
+
+/-- every message of the history satisfies `D` (for one step: it is the delivered datagram) -/
+def MsgsOk (D : Env → Message → Addr → Prop) (ops : List LOp) : Prop :=
+  ∀ e s m, LOp.msg e s m ∈ ops → D e m s
+
+/-- the lookup `create_iterative_query` builds: a fresh query seeded with known nodes -/
+def seedQuery (rid t : Id) (k : GetKind) (seeds : List Node) : IterQuery :=
+  seeds.foldl (fun q n => { q with closest := q.closest.add n }) (IterQuery.new rid t k)
+
+/-- where a registered lookup comes from: an older registered lookup of the same target, through a
+    history of operations; or a fresh seeded query, through a history of operations -/
+def Desc (D : Env → Message → Addr → Prop) (old : List (Id × IterQuery)) (t : Id) (q' : IterQuery) : Prop :=
+  (∃ q ops, (t, q) ∈ old ∧ q' = lrun q ops ∧ MsgsOk D ops) ∨
+  (∃ rid k seeds ops, q' = lrun (seedQuery rid t k seeds) ops ∧ MsgsOk D ops)
+
+def IterRel (D : Env → Message → Addr → Prop) (old new : List (Id × IterQuery)) : Prop :=
+  ∀ t q', (t, q') ∈ new → Desc D old t q'
+
+theorem lrun_append (q : IterQuery) (o1 o2 : List LOp) : lrun (lrun q o1) o2 = lrun q (o1 ++ o2) := by
+  unfold lrun; rw [List.foldl_append]
+
+theorem msgsOk_append (D : Env → Message → Addr → Prop) (o1 o2 : List LOp) (h1 : MsgsOk D o1) (h2 : MsgsOk D o2) :
+    MsgsOk D (o1 ++ o2) := by
+  intro e s m hm
+  rcases List.mem_append.1 hm with h | h
+  · exact h1 e s m h
+  · exact h2 e s m h
+
+theorem msgsOk_nil (D : Env → Message → Addr → Prop) : MsgsOk D [] := by intro e s m h; cases h
+
+theorem IterRel.refl (D : Env → Message → Addr → Prop) (l : List (Id × IterQuery)) : IterRel D l l :=
+  fun _ q' h => Or.inl ⟨q', [], h, rfl, msgsOk_nil D⟩
+
+theorem IterRel.trans {D : Env → Message → Addr → Prop} {l1 l2 l3 : List (Id × IterQuery)}
+    (h12 : IterRel D l1 l2) (h23 : IterRel D l2 l3) : IterRel D l1 l3 := by
+  intro t q3 h3
+  rcases h23 t q3 h3 with ⟨q2, ops2, hm2, rfl, ok2⟩ | hf
+  · rcases h12 t q2 hm2 with ⟨q1, ops1, hm1, rfl, ok1⟩ | ⟨rid, k, seeds, ops1, rfl, ok1⟩
+    · exact Or.inl ⟨q1, ops1 ++ ops2, hm1, lrun_append _ _ _, msgsOk_append D _ _ ok1 ok2⟩
+    · exact Or.inr ⟨rid, k, seeds, ops1 ++ ops2, lrun_append _ _ _, msgsOk_append D _ _ ok1 ok2⟩
+  · exact Or.inr hf
+
+theorem IterRel.of_eq {D : Env → Message → Addr → Prop} {l1 l2 : List (Id × IterQuery)} (h : l2 = l1) : IterRel D l1 l2 := by
+  rw [h]; exact IterRel.refl D l1
+
+theorem IterRel.mono {D D' : Env → Message → Addr → Prop} {l1 l2 : List (Id × IterQuery)}
+    (hD : ∀ e m s, D e m s → D' e m s) (h : IterRel D l1 l2) : IterRel D' l1 l2 := by
+  intro t q' hq
+  rcases h t q' hq with ⟨q, ops, hm, he, ok⟩ | ⟨rid, k, seeds, ops, he, ok⟩
+  · exact Or.inl ⟨q, ops, hm, he, fun e s m h => hD _ _ _ (ok e s m h)⟩
+  · exact Or.inr ⟨rid, k, seeds, ops, he, fun e s m h => hD _ _ _ (ok e s m h)⟩
+
+/-- replacing the entry of `t` by a descendant of an entry of `t` -/
+theorem IterRel.alSet_desc (D : Env → Message → Addr → Prop) (l : List (Id × IterQuery)) (t : Id) (q : IterQuery)
+    (hq : (t, q) ∈ l) (ops : List LOp) (ok : MsgsOk D ops) : IterRel D l (alSet l t (lrun q ops)) := by
+  intro t' q' h
+  rcases mem_alSet l t _ _ h with heq | hm
+  · injection heq with h1 h2
+    subst h1; subst h2
+    exact Or.inl ⟨q, ops, hq, rfl, ok⟩
+  · exact IterRel.refl D l t' q' hm
+
+theorem IterRel.alSet_fresh (D : Env → Message → Addr → Prop) (l : List (Id × IterQuery)) (t rid : Id) (k : GetKind)
+    (seeds : List Node) (ops : List LOp) (ok : MsgsOk D ops) :
+    IterRel D l (alSet l t (lrun (seedQuery rid t k seeds) ops)) := by
+  intro t' q' h
+  rcases mem_alSet l t _ _ h with heq | hm
+  · injection heq with h1 h2
+    subst h1; subst h2
+    exact Or.inr ⟨rid, k, seeds, ops, rfl, ok⟩
+  · exact IterRel.refl D l t' q' hm
+
+theorem IterRel.alRemove (D : Env → Message → Addr → Prop) (l : List (Id × IterQuery)) (t : Id) :
+    IterRel D l (alRemove l t) :=
+  fun t' q' h => IterRel.refl D l t' q' (mem_alRemove l t _ h)
+
+
+
+variable (D : Env → Message → Addr → Prop)
+
+theorem evictIfFull_iter (c : Core) : (evictIfFull c).iter = c.iter := by
+  unfold evictIfFull
+  split
+  · exact (decrementCached_fields _ _).2
+  · rfl
+
+theorem cacheQuery_iter (c : Core) (q : IterQuery) (nodes : List Node) : (cacheQuery c q nodes).iter = c.iter := by
+  unfold cacheQuery
+  split
+  · exact evictIfFull_iter c
+  · rw [(countEntry_fields _ _).2, (decrementCached_fields _ _).2]
+    exact evictIfFull_iter c
+
+
+/-! ### phase by phase -/
+
+
+theorem seedQuery_append (rid t : Id) (k : GetKind) (s1 s2 : List Node) :
+    s2.foldl (fun q n => { q with closest := q.closest.add n }) (seedQuery rid t k s1) = seedQuery rid t k (s1 ++ s2) := by
+  unfold seedQuery; rw [List.foldl_append]
+
+/-- what `create_iterative_query` returns when it creates a lookup: no lookup of the target was
+    registered, the query is freshly seeded, and its closest candidates are among the addresses to
+    visit -/
+theorem createIter_some (c : Core) (k : GetKind) (t : Id) (extra : List Addr) (now : Nat)
+    (q : IterQuery) (tv : List Addr) (h : (createIterativeQuery c k t extra now).2 = some (q, tv)) :
+    alGet c.iter t = none ∧ (∃ seeds, q = seedQuery c.rt.id t k seeds) ∧ (∀ x ∈ q.closestCandidates, x ∈ tv) := by
+  unfold createIterativeQuery at h
+  split at h
+  · cases h
+  · rename_i hnone
+    simp only at h
+    injection h with h
+    injection h with h htv
+    refine ⟨?_, ?_, ?_⟩
+    · cases hg : alGet c.iter t with
+      | none => rfl
+      | some x => rw [hg] at hnone; simp at hnone
+    · rw [← h]
+      split
+      · rename_i ns _
+        exact ⟨closestFromTables c k t ++ ns, (seedQuery_append _ _ _ _ _).symm ▸ rfl⟩
+      · exact ⟨closestFromTables c k t, rfl⟩
+    · intro x hx
+      have key : ∀ (q0 : IterQuery) (b : Bool) (bs ex : List Addr), x ∈ q0.closestCandidates →
+          x ∈ (if b = true then q0.closestCandidates ++ bs else q0.closestCandidates) ++ ex := by
+        intro q0 b bs ex h0
+        apply List.mem_append_left
+        split
+        · exact List.mem_append_left _ h0
+        · exact h0
+      subst h
+      rw [← htv]
+      exact key _ _ _ _ hx
+
+/-- a relation between the lookup registry before and after, closed under what the actor does to
+    the registry outside `handle_response` and `visit_closest`: nothing, removals, creations -/
+structure LateRel (R : List (Id × IterQuery) → List (Id × IterQuery) → Prop) : Prop where
+  refl : ∀ l, R l l
+  trans : ∀ l1 l2 l3, R l1 l2 → R l2 l3 → R l1 l3
+  remove : ∀ l t, R l (alRemove l t)
+  create : ∀ l t rid k seeds (b : Actor) tos now, alGet l t = none →
+    (∀ x ∈ (seedQuery rid t k seeds).closestCandidates, x ∈ tos) →
+    R l (alSet l t (b.visitAll (seedQuery rid t k seeds) tos now).2)
+
+section late
+variable {R : List (Id × IterQuery) → List (Id × IterQuery) → Prop} (hR : LateRel R)
+include hR
+
+theorem LateRel.of_eq {l1 l2 : List (Id × IterQuery)} (h : l2 = l1) : R l1 l2 := by rw [h]; exact hR.refl l1
+
+theorem startLookup_rel (a : Actor) (k : GetKind) (t : Id) (extra : List Addr) (now : Nat) :
+    R a.core.iter (a.startLookup k t extra now).core.iter := by
+  obtain ⟨_, _, _, c4, _, _⟩ := createIter_fields a.core k t extra now
+  have hsome := createIter_some a.core k t extra now
+  unfold startLookup
+  split
+  · rename_i core q toVisit hm
+    rw [hm] at c4 hsome
+    simp only at c4 hsome
+    obtain ⟨hnone, ⟨seeds, hq⟩, htv⟩ := hsome q toVisit rfl
+    simp only
+    rw [c4, hq]
+    exact hR.create _ _ _ _ _ _ _ _ hnone (by rw [← hq]; exact htv)
+  · rename_i core hm
+    rw [hm] at c4
+    simp only at c4 ⊢
+    exact hR.of_eq c4
+
+theorem get_rel (a : Actor) (k : GetKind) (t : Id) (extra : List Addr) (now : Nat) :
+    R a.core.iter (a.get k t extra now).1.core.iter := by
+  unfold Actor.get
+  split
+  · exact hR.refl _
+  · exact startLookup_rel hR a k t extra now
+
+theorem populate_rel (a : Actor) (now : Nat) : R a.core.iter (a.populate now).core.iter := by
+  unfold populate
+  split
+  · exact hR.refl _
+  · exact get_rel hR a _ _ _ now
+
+theorem cleanupOneLookup_rel (acc : Core × Option Addr) (d : Id × List Node) :
+    R acc.1.iter (cleanupOneLookup acc d).1.iter := by
+  unfold cleanupOneLookup
+  split
+  · rename_i q _
+    have h : (updateAddressVotes (cacheQuery { acc.1 with iter := alRemove acc.1.iter d.1 } q d.2) q).1.iter
+        = alRemove acc.1.iter d.1 := by
+      rw [(updateAddressVotes_fields _ _).1, cacheQuery_iter]
+    split
+    · simp only; rw [h]; exact hR.remove _ _
+    · simp only; rw [h]; exact hR.remove _ _
+  · exact hR.refl _
+
+theorem cleanupDone_rel (c : Core) (di : List (Id × List Node)) (dp : List (Id × Option PutErr)) :
+    R c.iter (cleanupDone c di dp).1.iter := by
+  unfold cleanupDone
+  have h1 : ∀ (l : List (Id × List Node)) (acc : Core × Option Addr),
+      R acc.1.iter (l.foldl cleanupOneLookup acc).1.iter := by
+    intro l
+    induction l with
+    | nil => intro acc; exact hR.refl _
+    | cons d ds ih =>
+      intro acc
+      simp only [List.foldl_cons]
+      exact hR.trans _ _ _ (cleanupOneLookup_rel hR acc d) (ih _)
+  have h2 : ∀ (l : List (Id × Option PutErr)) (c' : Core), (l.foldl removePut c').iter = c'.iter := by
+    intro l
+    induction l with
+    | nil => intro c'; rfl
+    | cons d ds ih => intro c'; simp only [List.foldl_cons]; rw [ih]; rfl
+  simp only
+  rw [h2]
+  exact h1 di (c, none)
+
+/-- the second half of the tick, after `visit_closest` -/
+theorem finishTick_rel (a4 : Actor) (now : Nat) (dp0 : List (Id × Option PutErr)) :
+    R a4.core.iter (finishTick a4 now dp0).core.iter := by
+  unfold finishTick
+  generalize a4.doneLookups now = di
+  obtain ⟨s1, _⟩ := startPuts_core a4 now di dp0
+  generalize startPuts a4 now di dp0 = sp at s1
+  have h6 := cleanupDone_rel hR sp.1.core di sp.2
+  rw [s1] at h6
+  generalize cleanupDone sp.1.core di sp.2 = cd at h6
+  have hping : ∀ (b : Actor) (to : Option Addr), (b.pingOpt to now).core = b.core := by
+    intro b to; unfold pingOpt; split <;> rfl
+  have hrg : ∀ (b : Actor) (l : List (Id × List Node)), (b.releaseGetCallers l).core = b.core := by
+    intro b l
+    unfold releaseGetCallers
+    induction l generalizing b with
+    | nil => rfl
+    | cons d ds ih =>
+      simp only [List.foldl_cons]
+      rw [ih]
+      unfold releaseGetOne
+      split <;> rfl
+  have hrp : ∀ (b : Actor) (l : List (Id × Option PutErr)), (b.releasePutCallers l).core = b.core := by
+    intro b l
+    unfold releasePutCallers
+    induction l generalizing b with
+    | nil => rfl
+    | cons d ds ih =>
+      simp only [List.foldl_cons]
+      rw [ih]
+      unfold releasePutOne
+      split <;> rfl
+  rw [hrp, hrg, hping]
+  exact h6
+
+theorem put_rel (a : Actor) (spec : PutSpec) (extra : List Node) (now : Nat) :
+    R a.core.iter (a.put spec extra now).1.core.iter := by
+  obtain ⟨k1, _⟩ := C06.checkConcurrency_spec a.core spec
+  unfold Actor.put
+  split
+  · simp only; exact hR.of_eq k1
+  · unfold putAfterCheck
+    obtain ⟨_, _, _, g4, _⟩ := getCached_fields (checkConcurrency a.core spec).1 spec.target now
+    split
+    · rename_i closest _
+      unfold putFromCache
+      generalize hb : ({ a with core := (getCachedClosestNodes (checkConcurrency a.core spec).1 spec.target now).1 } : Actor) = b
+      have hbi : b.core.iter = a.core.iter := by rw [← hb]; simp only; rw [g4, k1]
+      obtain ⟨s1, _⟩ := startPut_core b (newPutEntry spec extra) closest now
+      split
+      · simp only; exact hR.of_eq (s1.trans hbi)
+      · simp only [registerPut]; exact hR.of_eq (s1.trans hbi)
+    · generalize hb : ({ a with core := (getCachedClosestNodes (checkConcurrency a.core spec).1 spec.target now).1 } : Actor) = b
+      have hbi : b.core.iter = a.core.iter := by rw [← hb]; simp only; rw [g4, k1]
+      have := get_rel hR b (GetKind.ofPut spec) spec.target [] now
+      rw [hbi] at this
+      simpa [registerPut] using this
+
+theorem pickup_rel (a : Actor) (env : Env) (msg : Option ApiMsg) :
+    R a.core.iter (a.pickup env msg).core.iter := by
+  unfold pickup
+  split
+  · exact hR.refl _
+  · exact hR.refl _
+  · exact hR.refl _
+  · rename_i c spec extra
+    unfold pickupPut
+    have := put_rel hR a spec extra env.now
+    split
+    · simpa [parkPutCaller] using this
+    · simpa using this
+  · rename_i kind target sender
+    unfold pickupGet
+    have := get_rel hR a kind target [] env.now
+    simpa [parkGetCaller] using this
+
+theorem maintenance_rel (a : Actor) (now : Nat) :
+    R a.core.iter (a.maintenance now).core.iter := by
+  unfold maintenance
+  have h1 : R a.core.iter (a.bootstrapIfEmpty now).core.iter := by
+    unfold bootstrapIfEmpty; split
+    · exact populate_rel hR a now
+    · exact hR.refl _
+  have h2 : R (a.bootstrapIfEmpty now).core.iter ((a.bootstrapIfEmpty now).refreshTable now).core.iter := by
+    generalize a.bootstrapIfEmpty now = b
+    unfold refreshTable
+    split
+    · have := populate_rel hR (adaptiveSwitch { b with core := { b.core with lastRefresh := now } }) now
+      have hi : (adaptiveSwitch { b with core := { b.core with lastRefresh := now } }).core.iter = b.core.iter := by
+        unfold adaptiveSwitch; split <;> rfl
+      rw [hi] at this
+      exact this
+    · exact hR.refl _
+  have h12 := hR.trans _ _ _ h1 h2
+  generalize (a.bootstrapIfEmpty now).refreshTable now = b at h12
+  unfold pingTable
+  split
+  · have hfold : ∀ (l : List Addr) (x : Actor), (l.foldl (fun a addr => a.ping addr now) x).core = x.core := by
+      intro l
+      induction l with
+      | nil => intro x; rfl
+      | cons y ys ih => intro x; simp only [List.foldl_cons]; rw [ih]; rfl
+    rw [hfold]
+    exact h12
+  · exact h12
+
+/-- everything that happens to the registry after `visit_closest` until the end of the step -/
+theorem late_rel (a4 : Actor) (env : Env) (dp0 : List (Id × Option PutErr)) (msg : Option ApiMsg) :
+    R a4.core.iter (((finishTick a4 env.now dp0).pickup env msg).maintenance env.now).core.iter :=
+  hR.trans _ _ _ (hR.trans _ _ _ (finishTick_rel hR a4 env.now dp0) (pickup_rel hR _ env msg)) (maintenance_rel hR _ env.now)
+
+end late
+
+/-! #### the descendant relation through the phases -/
+
+theorem iterRel_late : LateRel (IterRel D) :=
+  ⟨IterRel.refl D, fun _ _ _ h1 h2 => IterRel.trans h1 h2, IterRel.alRemove D,
+   fun l t rid k seeds b tos now _ _ => by
+     have : (b.visitAll (seedQuery rid t k seeds) tos now).2
+         = lrun (seedQuery rid t k seeds) [LOp.visitAddrs b tos now] := rfl
+     rw [this]
+     exact IterRel.alSet_fresh D l t rid k seeds _ (by intro e s m h; simp at h)⟩
+
+
+theorem handleResponse_iter (c : Core) (env : Env) (src : Addr) (m : Message) (hD : D env m src) :
+    IterRel D c.iter (handleResponse c env src m).1.iter := by
+  unfold handleResponse
+  split
+  · exact IterRel.refl D _
+  · split
+    · exact IterRel.refl D _
+    · split
+      · rename_i target q hf
+        have hmem : (target, q) ∈ c.iter := List.mem_of_find?_eq_some hf
+        have hstep : (lookupStep q env src m).1 = lrun q [LOp.msg env src m] := rfl
+        have hnew : IterRel D c.iter (alSet c.iter target (lookupStep q env src m).1) := by
+          rw [hstep]
+          apply IterRel.alSet_desc D c.iter target q hmem
+          intro e s m' h
+          simp only [List.mem_singleton] at h
+          injection h with h1 h2 h3
+          subst h1; subst h2; subst h3
+          exact hD
+        split
+        · obtain ⟨r1, _⟩ := addResponder_cache { c with iter := alSet c.iter target (lookupStep q env src m).1 } env.now src m
+          rw [r1]; exact hnew
+        · exact hnew
+      · split
+        · obtain ⟨r1, _⟩ := addResponder_cache c env.now src m
+          rw [r1]; exact IterRel.refl D _
+        · exact IterRel.refl D _
+
+theorem handleIncoming_iter (a : Actor) (env : Env) (handed : Option (Message × Addr))
+    (hD : ∀ m s, handed = some (m, s) → D env m s) :
+    IterRel D a.core.iter (a.handleIncoming env handed).1.core.iter := by
+  unfold handleIncoming
+  cases handed with
+  | none => exact IterRel.refl D _
+  | some p =>
+    obtain ⟨m, src⟩ := p
+    simp only
+    cases hm : m.mtype with
+    | request req =>
+      simp only
+      obtain ⟨r1, _⟩ := handleRequest_cache a.core env src m.readOnly m.version req
+      unfold handleIncomingRequest
+      split
+      · have := populate_rel (iterRel_late D) (sendReply { a with core := (handleRequest a.core env src m.readOnly m.version req).1 } src m.tid
+            (handleRequest a.core env src m.readOnly m.version req).2.1) env.now
+        rw [sendReply_core] at this
+        simp only at this
+        rw [r1] at this
+        exact this
+      · rw [sendReply_core]; simp only; exact IterRel.of_eq r1
+    | response r => exact handleResponse_iter D a.core env src m (hD m src rfl)
+    | error e => exact handleResponse_iter D a.core env src m (hD m src rfl)
+
+theorem recvPhase_handed (a : Actor) (now : Nat) (dgram : Option (Message × Addr)) (m : Message) (s : Addr)
+    (h : (a.recvPhase now dgram).2 = some (m, s)) : dgram = some (m, s) := by
+  unfold recvPhase at h
+  cases dgram with
+  | none => cases h
+  | some p =>
+    obtain ⟨m', s'⟩ := p
+    simp only at h
+    generalize (a.sock.decide _ m'.tid.toNat s' now).2 = up at h
+    cases up with
+    | true => simpa using h
+    | false => simp at h
+
+theorem preDone_iter (a : Actor) (env : Env) (dgram : Option (Message × Addr))
+    (hD : ∀ m s, dgram = some (m, s) → D env m s) :
+    IterRel D a.core.iter (a.preDone env dgram).core.iter := by
+  unfold preDone
+  have h1 : (a.recvPhase env.now dgram).1.core = a.core := by
+    unfold recvPhase
+    cases dgram with
+    | none => rfl
+    | some p => rfl
+  have h2 := handleIncoming_iter D (a.recvPhase env.now dgram).1 env (a.recvPhase env.now dgram).2
+    (fun m s h => hD m s (recvPhase_handed a env.now dgram m s h))
+  have h3 : ∀ (b : Actor) (v : Option (Id × Value)), (b.forwardValue v).core = b.core := by
+    intro b v
+    unfold forwardValue
+    split
+    · split <;> rfl
+    · rfl
+  rw [h3]; rw [h1] at h2; exact h2
+
+
+theorem visitClosest_iter (a : Actor) (t : Id) (now : Nat) :
+    IterRel D a.core.iter (a.visitClosest t now).core.iter := by
+  unfold visitClosest
+  cases hg : alGet a.core.iter t with
+  | none => exact IterRel.refl D _
+  | some q =>
+    simp only
+    obtain ⟨hc, _⟩ := visitAll_core a q q.closestCandidates now
+    rw [hc]
+    have : (a.visitAll q q.closestCandidates now).2 = lrun q [LOp.visitClosest a now] := rfl
+    rw [this]
+    exact IterRel.alSet_desc D _ t q (mem_of_alGet a.core.iter t q hg) _ (by intro e s m h; simp at h)
+
+theorem visitClosestAll_iter (a : Actor) (now : Nat) :
+    IterRel D a.core.iter (a.visitClosestAll now).core.iter := by
+  unfold visitClosestAll
+  have : ∀ (l : List (Id × IterQuery)) (b : Actor),
+      IterRel D b.core.iter (l.foldl (fun (a : Actor) (p : Id × IterQuery) => a.visitClosest p.1 now) b).core.iter := by
+    intro l
+    induction l with
+    | nil => intro b; exact IterRel.refl D _
+    | cons p ps ih =>
+      intro b
+      simp only [List.foldl_cons]
+      exact IterRel.trans (visitClosest_iter D b p.1 now) (ih _)
+  exact this _ a
+
+
+
+/-- **Refinement, one iteration of the actor loop.** Every lookup registered after the step is a
+    lookup that was registered before it (under the same target) advanced by a history of lookup
+    operations whose messages are the delivered datagram, or a freshly seeded lookup advanced by
+    such a history.  Nothing else ever happens to a registered lookup. -/
+theorem step_iter (a : Actor) (env : Env) (dgram : Option (Message × Addr)) (msg : Option ApiMsg)
+    (hD : ∀ m s, dgram = some (m, s) → D env m s) :
+    IterRel D a.core.iter (a.step env dgram msg).core.iter := by
+  unfold Actor.step afterRecv
+  exact IterRel.trans (IterRel.trans (preDone_iter D a env dgram hD) (visitClosestAll_iter D _ env.now))
+    (late_rel (iterRel_late D) _ env _ msg)
+
+/-! ### every registered lookup is closed at the end of every step -/
+
+/-- visiting a superset of the closest candidates closes the lookup -/
+theorem visit_superset_closes (a : Actor) (q : IterQuery) (tos : List Addr) (now : Nat)
+    (h : ∀ x ∈ q.closestCandidates, x ∈ tos) : Closed (a.visitAll q tos now).2 := by
+  obtain ⟨hc, _, _, hnew, hold⟩ := visitAll_fields a q tos now
+  intro n hn
+  rw [hc] at hn
+  by_cases hv : n.addr ∈ q.visited
+  · exact hold _ hv
+  · apply hnew
+    apply h
+    unfold IterQuery.closestCandidates
+    rw [List.mem_map]
+    exact ⟨n, List.mem_filter.2 ⟨hn, by simpa using hv⟩, rfl⟩
+
+/-- every lookup the registry shows afterwards was shown before, or is closed -/
+def AddsClosed (l l' : List (Id × IterQuery)) : Prop :=
+  ∀ t q, alGet l' t = some q → alGet l t = some q ∨ Closed q
+
+theorem addsClosed_late : LateRel AddsClosed := by
+  refine ⟨fun l t q h => Or.inl h, ?_, ?_, ?_⟩
+  · intro l1 l2 l3 h12 h23 t q h
+    rcases h23 t q h with h2 | hc
+    · exact h12 t q h2
+    · exact Or.inr hc
+  · intro l k t q h
+    by_cases htk : t = k
+    · subst htk; rw [alGet_alRemove_self] at h; cases h
+    · rw [alGet_alRemove_other l k t htk] at h; exact Or.inl h
+  · intro l k rid kind seeds b tos now _ hsup t q h
+    by_cases htk : t = k
+    · subst htk
+      rw [alGet_alSet_self] at h
+      injection h with h
+      rw [← h]
+      exact Or.inr (visit_superset_closes b _ tos now hsup)
+    · rw [alGet_alSet_other l k t _ htk] at h; exact Or.inl h
+
+def AllClosed (l : List (Id × IterQuery)) : Prop := ∀ t q, alGet l t = some q → Closed q
+
+theorem visitClosest_keeps_closed (a : Actor) (t' : Id) (now : Nat) (t : Id)
+    (h : ∀ q, alGet a.core.iter t = some q → Closed q) :
+    ∀ q, alGet (a.visitClosest t' now).core.iter t = some q → Closed q := by
+  unfold visitClosest
+  cases hg : alGet a.core.iter t' with
+  | none => exact h
+  | some q0 =>
+    simp only
+    obtain ⟨hc, _⟩ := visitAll_core a q0 q0.closestCandidates now
+    rw [hc]
+    intro q hq
+    by_cases htt : t = t'
+    · subst htt
+      rw [alGet_alSet_self] at hq
+      injection hq with hq
+      rw [← hq]
+      exact visit_closest_closes a q0 now
+    · rw [alGet_alSet_other _ _ _ _ htt] at hq
+      exact h q hq
+
+theorem visitClosest_closes_own (a : Actor) (t : Id) (now : Nat) :
+    ∀ q, alGet (a.visitClosest t now).core.iter t = some q → Closed q := by
+  unfold visitClosest
+  cases hg : alGet a.core.iter t with
+  | none => intro q hq; simp only at hq; rw [hg] at hq; cases hq
+  | some q0 =>
+    simp only
+    obtain ⟨hc, _⟩ := visitAll_core a q0 q0.closestCandidates now
+    rw [hc]
+    intro q hq
+    rw [alGet_alSet_self] at hq
+    injection hq with hq
+    rw [← hq]
+    exact visit_closest_closes a q0 now
+
+/-- after `visit_closest` ran for every registered lookup, every registered lookup is closed -/
+theorem visitClosestAll_closed (a : Actor) (now : Nat) : AllClosed (a.visitClosestAll now).core.iter := by
+  unfold visitClosestAll
+  -- fold over any list of pairs: closed for the keys of the list, and closedness is kept
+  have hfold : ∀ (l : List (Id × IterQuery)) (b : Actor) (t : Id),
+      ((∀ q, alGet b.core.iter t = some q → Closed q) ∨ ∃ p ∈ l, p.1 = t) →
+      ∀ q, alGet (l.foldl (fun (a : Actor) (p : Id × IterQuery) => a.visitClosest p.1 now) b).core.iter t = some q → Closed q := by
+    intro l
+    induction l with
+    | nil =>
+      intro b t h
+      rcases h with h | ⟨p, hp, _⟩
+      · exact h
+      · cases hp
+    | cons p ps ih =>
+      intro b t h
+      simp only [List.foldl_cons]
+      apply ih
+      rcases h with h | ⟨p', hp', hpt⟩
+      · exact Or.inl (visitClosest_keeps_closed b p.1 now t h)
+      · rcases List.mem_cons.1 hp' with rfl | hp'
+        · left; rw [← hpt]; exact visitClosest_closes_own b p'.1 now
+        · exact Or.inr ⟨p', hp', hpt⟩
+  intro t q hq
+  have hkeys := (C06.visitClosest_fold_frame a.core.iter a now).2.2.2 t
+  have hk : hasKey a.core.iter t := hkeys.1 (by unfold hasKey; rw [hq]; rfl)
+  -- the key is in the list that is folded over
+  have hmem : ∃ p ∈ a.core.iter, p.1 = t := by
+    unfold hasKey at hk
+    cases hg : alGet a.core.iter t with
+    | none => rw [hg] at hk; cases hk
+    | some q0 => exact ⟨(t, q0), mem_of_alGet _ _ _ hg, rfl⟩
+  exact hfold a.core.iter a t (Or.inr hmem) q hq
+
+/-- **Closed at every step boundary.** After every iteration of the actor loop — whatever the
+    state before, whatever datagram and API message — every registered lookup has queried each of
+    its 20 closest candidates. -/
+theorem step_closed (a : Actor) (env : Env) (dgram : Option (Message × Addr)) (msg : Option ApiMsg) :
+    AllClosed (a.step env dgram msg).core.iter := by
+  unfold Actor.step afterRecv
+  intro t q hq
+  have hlate := late_rel addsClosed_late ((a.preDone env dgram).visitClosestAll env.now) env
+    ((a.preDone env dgram).checkDonePuts env.now) msg t q hq
+  rcases hlate with h | h
+  · exact visitClosestAll_closed _ env.now t q h
+  · exact h
+
+
+/-! ### every history of the actor -/
+
+/-- the inputs of one iteration of the actor loop -/
+structure StepIn where
+  env : Env
+  dgram : Option (Message × Addr)
+  msg : Option ApiMsg
+
+def runSteps (a : Actor) (ins : List StepIn) : Actor := ins.foldl (fun a i => a.step i.env i.dgram i.msg) a
+
+/-- `m` from `s` is one of the datagrams delivered during the run -/
+def Delivered (ins : List StepIn) (e : Env) (m : Message) (s : Addr) : Prop :=
+  ∃ i ∈ ins, i.env = e ∧ i.dgram = some (m, s)
+
+/-- **Refinement, every run.** -/
+theorem run_iter (ins : List StepIn) : ∀ a : Actor,
+    IterRel (Delivered ins) a.core.iter (runSteps a ins).core.iter := by
+  unfold runSteps
+  induction ins with
+  | nil => intro a; exact IterRel.refl _ _
+  | cons i is ih =>
+    intro a
+    simp only [List.foldl_cons]
+    have h1 : IterRel (Delivered (i :: is)) a.core.iter (a.step i.env i.dgram i.msg).core.iter :=
+      step_iter (Delivered (i :: is)) a i.env i.dgram i.msg (fun m s h => ⟨i, List.mem_cons_self, rfl, h⟩)
+    have h2 : IterRel (Delivered (i :: is)) (a.step i.env i.dgram i.msg).core.iter
+        (List.foldl (fun a i => a.step i.env i.dgram i.msg) (a.step i.env i.dgram i.msg) is).core.iter :=
+      IterRel.mono (fun e m s ⟨j, hj, h⟩ => ⟨j, List.mem_cons_of_mem _ hj, h⟩) (ih _)
+    exact IterRel.trans h1 h2
+
+theorem run_closed (ins : List StepIn) : ∀ a : Actor, AllClosed a.core.iter → AllClosed (runSteps a ins).core.iter := by
+  unfold runSteps
+  induction ins with
+  | nil => intro a h; exact h
+  | cons i is ih => intro a _; simp only [List.foldl_cons]; exact ih _ (step_closed a i.env i.dgram i.msg)
+
+/-- a freshly created node: whatever it registered was created by the first maintenance -/
+theorem create_iter (D : Env → Message → Addr → Prop) (cfg : NodeConfig) (seed : UInt64) (now : Nat) :
+    IterRel D [] (Actor.create cfg seed now).core.iter ∧ AllClosed (Actor.create cfg seed now).core.iter := by
+  unfold Actor.create
+  simp only
+  constructor
+  · exact maintenance_rel (iterRel_late D) _ now
+  · intro t q hq
+    rcases maintenance_rel addsClosed_late _ now t q hq with h | h
+    · cases h
+    · exact h
+
+theorem seedQuery_closest (rid t : Id) (k : GetKind) (seeds : List Node) :
+    (seedQuery rid t k seeds).closest = seeds.foldl ClosestNodes.add { target := t } := by
+  unfold seedQuery
+  have : ∀ (q : IterQuery), (seeds.foldl (fun q n => { q with closest := q.closest.add n }) q).closest
+      = seeds.foldl ClosestNodes.add q.closest := by
+    induction seeds with
+    | nil => intro q; rfl
+    | cons n ns ih => intro q; simp only [List.foldl_cons]; rw [ih]
+  rw [this]; rfl
+
+theorem seedQuery_candOk (U : Id → Addr → Prop) (rid t : Id) (k : GetKind) (seeds : List Node)
+    (ht : t.bytes.length = 20) (hs : AllIn U seeds) : CandOk U (seedQuery rid t k seeds) := by
+  have htgt : (seedQuery rid t k seeds).closest.target = t := by
+    rw [seedQuery_closest]; exact C11.foldl_add_target t seeds _ rfl
+  refine ⟨by rw [htgt]; exact ht, ?_, ?_⟩
+  · rw [htgt, seedQuery_closest]; exact C11.accumulator_sorted_after_any_insertions t seeds
+  · rw [seedQuery_closest]
+    have : ∀ (l : List Node), AllIn U l → ∀ (c : ClosestNodes), AllIn U c.nodes →
+        AllIn U (l.foldl ClosestNodes.add c).nodes := by
+      intro l
+      induction l with
+      | nil => intro _ c hc; exact hc
+      | cons n ns ih =>
+        intro hl c hc
+        simp only [List.foldl_cons]
+        apply ih (fun e he => hl e (List.mem_cons_of_mem _ he))
+        intro e he
+        rcases ClosestNodes.mem_add c n e he with rfl | h
+        · exact hl e List.mem_cons_self
+        · exact hc e h
+    exact this seeds hs _ (fun e he => by cases he)
+
+/-- **C07 at the level of the node.**  Start any node, run it through any sequence of loop
+    iterations — any datagrams, any API calls, any clock.  Every lookup registered at the end is a
+    freshly seeded query advanced by lookup operations whose messages were datagrams delivered to
+    the node; it is closed; and if its seeds and the nodes listed in those datagrams belong to an
+    honest population, every listed node has been queried or stands behind 20 queried candidates
+    that precede it in the lookup's order. -/
+theorem node_lookup_closure (cfg : NodeConfig) (seed : UInt64) (t0 : Nat) (ins : List StepIn) (t : Id) (q : IterQuery)
+    (h : alGet (runSteps (Actor.create cfg seed t0) ins).core.iter t = some q) :
+    ∃ rid k seeds ops, q = lrun (seedQuery rid t k seeds) ops ∧ MsgsOk (Delivered ins) ops ∧ Closed q ∧
+      ∀ U : Id → Addr → Prop, Honest U → t.bytes.length = 20 → AllIn U seeds → AllIn U (listed ops) →
+        ∀ n ∈ listed ops, n.addr ∈ q.visited ∨
+          ((q.closest.nodes.take Constants.K).length = Constants.K ∧
+            ∀ y ∈ q.closest.nodes.take Constants.K, y.addr ∈ q.visited ∧ keyLt t y n) := by
+  obtain ⟨hc1, hc2⟩ := create_iter (Delivered ins) cfg seed t0
+  have hrel := IterRel.trans hc1 (run_iter ins (Actor.create cfg seed t0))
+  have hclosed := run_closed ins _ hc2 t q h
+  rcases hrel t q (mem_of_alGet _ _ _ h) with ⟨q0, _, hm, _, _⟩ | ⟨rid, k, seeds, ops, hq, hok⟩
+  · cases hm
+  · refine ⟨rid, k, seeds, ops, hq, hok, hclosed, ?_⟩
+    intro U hU ht hseeds hlisted n hn
+    have h0 := seedQuery_candOk U rid t k seeds ht hseeds
+    have htgt : (seedQuery rid t k seeds).closest.target = t := by
+      rw [seedQuery_closest]; exact C11.foldl_add_target t seeds _ rfl
+    have := lookup_closure U hU (seedQuery rid t k seeds) h0 ops hlisted (by rw [← hq]; exact hclosed) n hn
+    rw [← hq, htgt] at this
+    exact this
+
 
 end Mainline.Props.C07
